@@ -16,10 +16,11 @@ class SizeExtractor:
         backup_copy = path_of_backup_copy(trashinfo_path)
         try:
             return str(file_size(backup_copy))
-        except FileNotFoundError:
+        except OSError:
             if os.path.islink(backup_copy):
                 return 0
             else:
-                # a .trashinfo without its file: the size is unknown, but
-                # the other entries must still be listed
+                # a .trashinfo without its file (also when 'files' is not
+                # a directory): the size is unknown, but the other entries
+                # must still be listed
                 return '?'
